@@ -38,6 +38,25 @@ def rule_table_style(prog, rep, tier):
             if n.value.attr in styles and n.value.attr not in order:
                 last = n.value.attr
     if len(order) < 2 or last is None:
+        # table form: a module-level sequence of (Style.<s>, TOKENS.<s>) pairs tried in order by next(..., <default style>)
+        region_mods = {f_.module for f_ in prog.region(pd)}
+        used = {n_.id for nd in pd_nodes if isinstance(nd, ast.Name) for n_ in [nd]}
+        for m_ in region_mods:
+            for st in m_.tree.body:
+                if isinstance(st, ast.Assign) and len(st.targets) == 1 and isinstance(st.targets[0], ast.Name) and st.targets[0].id in used \
+                        and isinstance(st.value, (ast.Tuple, ast.List)) and st.value.elts and all(isinstance(e_, (ast.Tuple, ast.List)) for e_ in st.value.elts):
+                    cand = []
+                    for e_ in st.value.elts:
+                        toks = [a.attr for a in ast.walk(e_) if isinstance(a, ast.Attribute) and isinstance(a.value, ast.Name) and a.value.id == "TOKENS" and a.attr in styles]
+                        if len(toks) == 1:
+                            cand.append(toks[0])
+                    if len(cand) == len(st.value.elts) and len(cand) >= 2:
+                        order = cand
+        for n in pd_nodes:
+            if isinstance(n, ast.Call) and isinstance(n.func, ast.Name) and n.func.id == "next" and len(n.args) == 2 and isinstance(n.args[1], ast.Attribute) \
+                    and n.args[1].attr in styles and n.args[1].attr not in order:
+                last = n.args[1].attr
+    if len(order) < 2 or last is None:
         raise AnalysisError("TABLE-style: cannot read the detection order out of parse_docstring (found %r, default %r)" % (order, last))
     prec = order + [last]
     rep.note("TABLE-style", "detection precedence %s" % " > ".join(prec))
